@@ -29,10 +29,14 @@ def user_derives(annos):
 
 def choice_module(ck, k):
     n = ck.rng.randint(2, 6)
-    tys = ['INTEGER', 'BOOLEAN', 'NULL', 'IA5String', 'OCTET STRING', 'Pay%d' % k, 'INTEGER (0..5)', 'Pay%d' % k]
+    tys = ['INTEGER', 'BOOLEAN', 'NULL', 'IA5String', 'OCTET STRING', 'Pay%d' % k, 'INTEGER (0..5)', 'Pay%d' % k, 'INTEGER (0..65535)',
+           'INTEGER (-5..5)', 'INTEGER (0..255)', 'UTF8String', 'SEQUENCE OF INTEGER', 'SEQUENCE OF BOOLEAN']
     alts = ['a%d %s' % (i, ck.rng.choice(tys)) for i in range(n)]
     return ('Mc%d DEFINITIONS AUTOMATIC TAGS ::= BEGIN\nPay%d ::= SEQUENCE { p BOOLEAN }\nCh%d ::= CHOICE { %s%s }\n'
-            'Outer%d ::= SEQUENCE { inner CHOICE { x INTEGER, y INTEGER, z BOOLEAN } }\nEND\n' % (k, k, k, ', '.join(alts), ck.rng.choice(['', ', ...']), k))
+            'Outer%d ::= SEQUENCE { inner CHOICE { x INTEGER, y INTEGER, z BOOLEAN } }\n'
+            'Lbl%d ::= CHOICE { text UTF8String, num INTEGER, small INTEGER (0..9), flag BOOLEAN, nest Pay%d }\n'
+            'greeting%d Lbl%d ::= text : "hello"\nanswer%d Lbl%d ::= num : 42\ntiny%d Lbl%d ::= small : 4\ntruth%d Lbl%d ::= flag : TRUE\n'
+            'END\n' % (k, k, k, ', '.join(alts), ck.rng.choice(['', ', ...']), k, k, k, k, k, k, k, k, k, k, k))
 
 
 def split_items(block):
@@ -92,6 +96,8 @@ def run(ck):
     inputs = []
     for k in range(8 if quick else 120):
         inputs.append(MG.render(MG.gen_module_set(ck.rng, k, nmods=ck.rng.randint(1, 3), max_defs=6)) + [choice_module(ck, k)])
+    for k in range(100, 112 if quick else 300):
+        inputs.append([choice_module(ck, k)])
     combos = list(itertools.product([False, True], repeat=4))
     cases, meta = [], []
     for ii, src in enumerate(inputs):
@@ -105,9 +111,13 @@ def run(ck):
             for an in ANNOTATION_SETS:
                 cfgs.append({'opaque_open_types': True, 'default_wildcard_imports': False, 'generate_from_impls': ck.rng.random() < 0.5,
                              'no_std_compliant_bindings': False, '_ci': ci, '_an': an})
+        sib = re.findall(r'FROM (Mod[0-9]+-[a-e])', ''.join(src))
         for cfg in cfgs:
             real = {k: v for k, v in cfg.items() if not k.startswith('_')}
-            real['custom_imports'] = CUSTOM_IMPORTS[cfg['_ci']]
+            real['custom_imports'] = list(CUSTOM_IMPORTS[cfg['_ci']])
+            if sib and cfg['_ci'] != 'no':
+                # an alias for something of a module the input also IMPORTS from
+                real['custom_imports'].append('super::%s::Thing as Alias%d' % (sib[0].lower().replace('-', '_'), len(sib)))
             if ANNOTATION_SETS[cfg['_an']] is not None:
                 real['type_annotations'] = ANNOTATION_SETS[cfg['_an']]
             cases.append({'op': 'compile', 'sources': src, 'config': real})
@@ -158,7 +168,7 @@ def run(ck):
             # custom imports come after the prelude imports and before the module imports
             k = len([t for t in want if not t.startswith('super::')])
             want = want[:k] + [re.sub(r'\s+', '', x) for x in conf.get('custom_imports', [])] + want[k:]
-            if u1 != want:
+            if [re.sub(r'\s+', '', x) for x in u1] != [re.sub(r'\s+', '', x) for x in want]:
                 problems.append('use lines of %s are %s, documented effect gives %s' % (mod, u1, want))
             # ---- statics
             if s0 != s1:
